@@ -54,7 +54,11 @@ class Endpoint(object):
     self.conns = []
 
   def outcome(self, k):
-    return self.connect(k) if callable(self.connect) else self.connect
+    if not callable(self.connect): return self.connect
+    try:
+      return self.connect(k, vtime.now())
+    except TypeError:
+      return self.connect(k)
 
 
 class FakeGSocket(object):
